@@ -21,6 +21,9 @@
 //!     Model/PlacementOps.lean): an index written `e as usize` directly in the argument of `get`/`get_mut`/`iter_row`/`iter_col` is passed uncast —
 //!     a negative i16 wraps to ≥ 2^63, which is out of bounds for every grid, and that is what the accessors answer for a negative index;
 //!   * `Vec<CellOccupancyState>` is a list (`push` appends), `Vec::with_capacity(n)` is `[]` after evaluating `n`.
+//!   * a parameter `impl Iterator<Item = S>` (S: GridItemStyle) is the list of the styles it yields; `iter.for_each(|x| { … });` as a statement
+//!     is `Occ.forM iter state (fun x state => …)` over the tuple of the captured outer locals the closure assigns (a `return` inside the
+//!     closure — "skip this element" — is rejected); integer literals in a `let (a, b, c) = (…, 0)` are `u16` like a lone literal.
 //! Anything else in a required function is an EXTRACT-ERROR.
 use crate::gridint::{extract_with_fns, lname, segs, Cx, Pre, Sig, R, T};
 use crate::util::{parse_file, CfgEnv};
@@ -113,6 +116,8 @@ pub(crate) fn ty_ext(s: &str) -> R<T> {
         "Vec<GridItem>" => T::Items,
         "T" => T::Line(Box::new(T::Placement(Box::new(T::Oz)))),
         "S" => T::Child,
+        // an iterator over the children's styles, consumed once (`for_each`): the list of the styles it yields
+        "implIterator<Item=S>" => T::List(Box::new(T::Child)),
         _ if s.starts_with('(') && s.ends_with(')') => {
             let inner = &s[1..s.len() - 1];
             let mut ts = vec![];
@@ -798,6 +803,14 @@ impl<'a> Cx<'a> {
         match e {
             Expr::Assign(a) => add(root_ident(&a.left), out),
             Expr::Binary(b) if matches!(b.op, BinOp::AddAssign(_) | BinOp::SubAssign(_)) => add(root_ident(&b.left), out),
+            Expr::MethodCall(m) if m.method == "for_each" && m.args.len() == 1 && matches!(&m.args[0], Expr::Closure(_)) => {
+                if let Expr::Closure(c) = &m.args[0] {
+                    match &*c.body {
+                        Expr::Block(b) => self.assigned(&b.block.stmts, out),
+                        e => self.assigned_expr(e, out, add),
+                    }
+                }
+            }
             Expr::MethodCall(m) => {
                 let name = m.method.to_string();
                 if name == "push" || self.ext.mut_self.iter().any(|f| f.ends_with(&format!(".{name}"))) {
@@ -1185,7 +1198,14 @@ impl<'a> Cx<'a> {
                     _ => {
                         let mut pre = vec![];
                         let (v, t) = self.ex(init, None, &mut pre)?;
-                        let t = if t == T::IntLit { T::U16 } else { t };
+                        fn lit_u16(t: T) -> T {
+                            match t {
+                                T::IntLit => T::U16,
+                                T::Tuple(ts) => T::Tuple(ts.into_iter().map(lit_u16).collect()),
+                                t => t,
+                            }
+                        }
+                        let t = lit_u16(t);
                         let pat = self.let_pat(&l.pat, &t)?;
                         let r = self.pblock(rest, ctl, expect, out_ty)?;
                         if let Some(Pre::Bind(x, e)) = pre.last() {
@@ -1248,6 +1268,37 @@ impl<'a> Cx<'a> {
                 let r = self.pblock(rest, ctl, expect, out_ty)?;
                 let asg = self.assign_place(&b.left, v, &t, r)?;
                 Ok(pwrap(pre, asg))
+            }
+            // `iter.for_each(|x| { … })` as a statement, `iter` a list-valued local that is not used afterwards: a `for` loop whose
+            // state is the tuple of the captured outer locals the closure assigns
+            Stmt::Expr(Expr::MethodCall(m), Some(_)) if m.method == "for_each" && m.args.len() == 1 && matches!(&m.args[0], Expr::Closure(_)) => {
+                let c = match &m.args[0] {
+                    Expr::Closure(c) => c.clone(),
+                    _ => unreachable!(),
+                };
+                let mut pre = vec![];
+                let (list, lt) = self.ex(&m.receiver, None, &mut pre)?;
+                let it = match lt {
+                    T::List(t) => (*t).clone(),
+                    t => return Err(format!("`for_each` on {:?}", t)),
+                };
+                let body_stmts: Vec<Stmt> = match &*c.body {
+                    Expr::Block(b) => b.block.stmts.clone(),
+                    _ => return Err("`for_each` closure whose body is not a block".into()),
+                };
+                if contains_return(&body_stmts) || c.inputs.len() != 1 {
+                    return Err("`for_each` closure with `return` / several parameters".into());
+                }
+                let mut vars = vec![];
+                self.assigned(&body_stmts, &mut vars);
+                let lv: Vec<String> = vars.iter().map(|v| self.lvar(v)).collect();
+                let tup = tuple_of(&lv);
+                let saved = self.locals.clone();
+                let var = self.let_pat(&c.inputs[0], &it)?;
+                let body = self.pblock(&body_stmts, &Ctl { end: End::Tuple(tup.clone()), in_loop: None }, None, &mut None)?;
+                self.locals = saved;
+                let r = self.pblock(rest, ctl, expect, out_ty)?;
+                Ok(pwrap(pre, PS::For { st: tup, var, list, body: Box::new(body), rest: Box::new(r) }))
             }
             // `v.push(x)` and `&mut self` methods as statements
             Stmt::Expr(Expr::MethodCall(m), Some(_)) => {
@@ -1419,8 +1470,8 @@ const TARGETS: &[Target] = &[
     t(PL, "", "place_indefinitely_positioned_item", true),
     t(PL, "", "record_grid_placement", true),
     t(IG, "", "child_min_line_max_line_span", true),
-    t(IG, "", "get_known_child_positions", false),
-    t(IG, "", "compute_grid_size_estimate", false),
+    t(IG, "", "get_known_child_positions", true),
+    t(IG, "", "compute_grid_size_estimate", true),
     t(PL, "", "place_grid_items", false),
 ];
 
